@@ -298,6 +298,9 @@ def isolate_hang(nl, prelude, srcs, fuel=300_000, timeout=20):
 
 def _worker_main(modname, tier, seed, index, nworkers, q):
     import importlib
+    import faulthandler
+    import signal
+    faulthandler.register(signal.SIGUSR1, all_threads=True)   # kill -USR1 <pid> prints where a worker is
     t0 = time.time()
     ctx = None
     try:
